@@ -5,7 +5,7 @@ Import ListNotations.
 
 Inductive idle (np : nat) : mpc -> Prop :=
 | idle_done : idle np MDone
-| idle_play a cr : idle np (MPlayAcq a cr)
+| idle_play a cr pl : idle np (MPlayAcq a cr pl)
 | idle_close : idle np MCloseAcqH
 | idle_pause t : t < np -> idle np (MCtlAcq KPause t)
 | idle_resume t : t < np -> idle np (MCtlAcq KResume t)
@@ -126,6 +126,7 @@ Ltac pc_tac :=
 
 Ltac close1 := intros; first [ solve [fin] | solve [lt_tac] | solve [pc_tac] | solve [in_tac] | idtac ].
 Ltac split_loop :=
+  try match goal with |- context[p_loop ?p] => unfold p_loop in * end;
   try match goal with |- context[loop_pc ?p] => unfold loop_pc in *; destruct (prem p) eqn:? end;
   try match goal with
       | |- context[if pcrash ?p then _ else _] => unfold crash_pc in *; destruct (pcrash p)
